@@ -820,6 +820,79 @@ func init() {
 				return false, "no edge on the way establishes that `" + types.ExprString(arg) + "` is not a bracket list"
 			}
 			var obs []Obligation
+			// inside tryPrefixForm: the shorthand is written only for an unquoted symbol head
+			if tfd := c.declOf[try]; tfd != nil && tfd.Body != nil {
+				tu := FuncUnit{try, tfd, c.pkgOf[tfd]}
+				tinfo := tu.Pkg.TypesInfo
+				tfc := c.cfgOf(tu, nil)
+				var nodeP types.Object
+				for _, p := range paramObjs(tu) {
+					if strings.HasSuffix(p.Type().String(), "lisp.LVal") && nodeP == nil {
+						nodeP = p
+					}
+				}
+				typeFld := c.LookupField("lisp.LVal.Type")
+				isHead := func(e ast.Expr) bool {
+					ie, ok := ast.Unparen(e).(*ast.IndexExpr)
+					if !ok {
+						return false
+					}
+					se, ok := ast.Unparen(ie.X).(*ast.SelectorExpr)
+					if !ok || se.Sel.Name != "Cells" || identObj(tinfo, se.X) != nodeP {
+						return false
+					}
+					k, ok := intConst(tinfo, ie.Index)
+					return ok && k == 0
+				}
+				cls := func(e ast.Expr) (string, bool) {
+					e = ast.Unparen(e)
+					switch x := e.(type) {
+					case *ast.CallExpr:
+						if originOf(Callee(tinfo, x)) == isQuoted {
+							if se, ok := ast.Unparen(x.Fun).(*ast.SelectorExpr); ok && isHead(se.X) {
+								return "headQuoted", false
+							}
+						}
+					case *ast.BinaryExpr:
+						if (x.Op == token.EQL || x.Op == token.NEQ) && typeFld != nil && FieldOfSelector(tinfo, x.X) == typeFld {
+							if se, ok := ast.Unparen(x.X).(*ast.SelectorExpr); ok && isHead(se.X) {
+								if o, ok := identObjOrSel(tinfo, x.Y).(*types.Const); ok && o.Name() == "LSymbol" {
+									return "headSym", x.Op == token.NEQ
+								}
+							}
+						}
+					}
+					return "", false
+				}
+				cutQ := tfc.edgesEntailing(cls, func(v map[string]bool) bool { return v["$has:headQuoted"] && !v["headQuoted"] })
+				cutS := tfc.edgesEntailing(cls, func(v map[string]bool) bool { return v["$has:headSym"] && v["headSym"] })
+				o2 := &ordinal{}
+				for _, b := range tfc.G.Blocks {
+					if !tfc.Live(b) {
+						continue
+					}
+					for _, n := range b.Nodes {
+						for _, ce := range callsIn(n, false) {
+							fn := Callee(tinfo, ce)
+							if fn == nil || fn.Name() != "writeString" || len(ce.Args) != 1 {
+								continue
+							}
+							lit, ok := constStringVal(tinfo, ce.Args[0])
+							if !ok || (lit != "#'" && lit != "#^") {
+								continue
+							}
+							construct := o2.next("writes " + lit)
+							okQ := len(cutQ) > 0 && !tfc.reachableAvoiding(b, cutQ)
+							okS := len(cutS) > 0 && !tfc.reachableAvoiding(b, cutS)
+							if okQ && okS {
+								obs = append(obs, mkOb(c, "FMT.prefix-not-data", tu, construct, ce, Proved, "reached only when the head is an unquoted symbol", true))
+							} else {
+								obs = append(obs, mkOb(c, "FMT.prefix-not-data", tu, construct, ce, Violated, "the shorthand is written although the head may be quoted (or not a symbol): ('lisp:function f) is printed as #'f and its quote is lost", true))
+							}
+						}
+					}
+				}
+			}
 			sites, _ := c.CallsTo(func(p string) bool { return rel(p) == "formatter" }, try)
 			ord := map[string]*ordinal{}
 			for _, s := range sites {
